@@ -29,6 +29,18 @@ MUTANTS = [
     ("C14", "error-start-off-by-one", "pdpy11/bk_encoding.py", "        start = 0\n", "        start = 1\n"),
     ("C15", "1600-to-1640", "pdpy11/metacommands.py", "a * 1600 + b * 40 + c", "a * 1640 + b * 40 + c"),
     ("C15", "table-dollar-dot-swapped", "pdpy11/radix50.py", "XYZ$.%", "XYZ.$%"),
+    ("C01", "asr-opcode-digit", "pdpy11/architecture.py", '"asr"   : "0062dd"', '"asr"   : "0063dd"'),
+    ("C01", "fp-field-shift", "pdpy11/insns.py", 'FP11RMOperandStub("S", [7, 6, 5, 4, 3, 2])', 'FP11RMOperandStub("S", [5, 4, 3, 2, 1, 0])'),
+    ("C01", "two-operand-order-swapped", "pdpy11/insns.py", """            operands.append(RegisterModeOperandStub("s", [5, 4, 3, 2, 1, 0]))
+            operands.append(RegisterModeOperandStub("s", [11, 10, 9, 8, 7, 6]))""", """            operands.append(RegisterModeOperandStub("s", [11, 10, 9, 8, 7, 6]))
+            operands.append(RegisterModeOperandStub("s", [5, 4, 3, 2, 1, 0]))"""),
+    ("C01", "autodec-deferred-mode-const", "pdpy11/insns.py", "return 0o50 | register, b\"\"", "return 0o40 | register, b\"\""),
+    ("C01", "bhis-is-bcs", "pdpy11/architecture.py", '"bhis"  : "103[0oo]oo"', '"bhis"  : "103[1oo]oo"'),
+    ("C01", "xor-register-in-low-bits", "pdpy11/architecture.py", '"xor"   : "074sdd"', '"xor"   : "074dds"'),
+    ("C01", "sob-operand-order", "pdpy11/insns.py", """            if cnt_d == 0:
+                operands.append(operand)""", """            if cnt_d == 0 and cnt_s == 0:
+                operands.append(operand)"""),
+    ("C01", "stexp-ac-field", "pdpy11/architecture.py", '"stexp" : "175[0SS]dd"', '"stexp" : "175[1SS]dd"'),
     ("C13", "bit-order-msb-first", "pdpy11/bk_wav.py", "(byte >> i) & 1", "(byte >> (7 - i)) & 1"),
     ("C13", "checksum-mod-65536", "pdpy11/bk_wav.py", "            result -= 0xffff\n", "            result -= 0x10000\n"),
     ("C13", "name-padded-with-nul", "pdpy11/metacommands.py", 'encoded_bk_filename.ljust(16, b" ")', 'encoded_bk_filename.ljust(16, b"\\0")'),
